@@ -1035,6 +1035,17 @@ func unparseCall(call b6.CallExpression, top bool) (string, bool) {
 	}
 }
 
+// unparseFloat prints a float with as many digits as are needed to parse
+// back to the same value, and always with a decimal point, since that's how
+// the lexer tells a float from an integer.
+func unparseFloat(v float64) string {
+	s := strconv.FormatFloat(v, 'f', -1, 64)
+	if !strings.Contains(s, ".") {
+		s += ".0"
+	}
+	return s
+}
+
 func unparseLiteral(l b6.AnyLiteral) (string, bool) {
 	switch l := l.(type) {
 	case b6.StringExpression:
@@ -1042,13 +1053,13 @@ func unparseLiteral(l b6.AnyLiteral) (string, bool) {
 	case b6.IntExpression:
 		return fmt.Sprintf("%d", int(l)), true
 	case b6.FloatExpression:
-		return fmt.Sprintf("%.2f", float64(l)), true
+		return unparseFloat(float64(l)), true
 	case b6.TagExpression:
 		return UnparseTag(b6.Tag{Key: l.Key, Value: l.Value}), true
 	case b6.FeatureIDExpression:
 		return UnparseFeatureID(b6.FeatureID(l), true), true
 	case b6.PointExpression:
-		return fmt.Sprintf("%f, %f", l.Lat.Degrees(), l.Lng.Degrees()), true
+		return unparseFloat(l.Lat.Degrees()) + ", " + unparseFloat(l.Lng.Degrees()), true
 	case b6.QueryExpression:
 		return UnparseQuery(l.Query)
 	default:
